@@ -83,7 +83,7 @@ def analyse(ctx, case, run, S):
                         names['%s:%s' % (mname, o)] = o
                 direct_ext |= {a for a in acc if a.startswith('ext_')}
         ctx.expect(not direct_ext, 'C14:raw-external-randomness', '%s run %d: output of the external RNG is used directly in the proof: %s' % (case['name'], ri, sorted(direct_ext)[:3]), cfg, None)
-        ctx.expect(len(names) >= 2, 'C14:no-rng-nonce', '%s run %d: fewer than two RNG-drawn nonces in the proof' % (case['name'], ri), cfg, None)
+        ctx.expect(len(names) >= 2, 'C14:no-rng-nonce', '%s run %d: fewer than two RNG-drawn nonces in the proof' % (case['name'], ri), cfg, 'nonce_hedge_broken', rcfg)
         used.append(names)
         # serialised witness: LE64(v_j) | r_{j,0} | ... for every opening, in order
         want = []
